@@ -41,8 +41,9 @@ def main():
         sh("git -C /repo worktree remove --force %s" % wt)
         lines = [l[:300] for l in p.stdout.splitlines() if l.startswith(("VIOLATION", "INCONCLUSIVE", "  job="))][:4]
         meta.setdefault("check_history", []).append({"tier": "quick", "recheck": True, "results": {prop: {"exit": p.returncode, "lines": lines, "scratch": True}}})
-        meta["detected"] = meta.get("detected") or p.returncode == 1
-        meta["detected_by_current_checks"] = p.returncode == 1
+        hit = p.returncode == 1 and any(l.startswith("VIOLATION") for l in lines)
+        meta["detected"] = meta.get("detected") or hit
+        meta["detected_by_current_checks"] = hit
         json.dump(meta, open(d + "/meta.json", "w"), indent=1)
         summary.append((sid, "exit %d" % p.returncode))
         print(sid, p.returncode, flush=True)
